@@ -67,7 +67,26 @@ def run_gen():
     return rc == 0, out
 
 
+def write_coq_project():
+    """_CoqProject lists every .v file under coq/ (Generated.v, Base, Model, Proofs, Props)."""
+    fs = []
+    for d in ('Base', 'Model', 'Proofs', 'Props'):
+        for r, _, names in os.walk(os.path.join(COQ, d)):
+            for n in sorted(names):
+                if n.endswith('.v') and not n.startswith('.'):
+                    fs.append(os.path.relpath(os.path.join(r, n), COQ))
+    txt = '-Q . Hts\nGenerated.v\n' + '\n'.join(sorted(fs)) + '\n'
+    path = os.path.join(COQ, '_CoqProject')
+    old = open(path).read() if os.path.exists(path) else ''
+    if old != txt:
+        with open(path, 'w') as f:
+            f.write(txt)
+        return True
+    return False
+
+
 def coq_makefile():
+    write_coq_project()
     rc, out = sh(['coq_makefile', '-f', '_CoqProject', '-o', 'Makefile'], cwd=COQ)
     if rc != 0:
         raise RuntimeError(out)
@@ -84,7 +103,7 @@ def coq_project_files():
 
 def run_make(timeout=3000):
     """Full .vo build (incremental). Returns (ok, output)."""
-    if not os.path.exists(os.path.join(COQ, 'Makefile')):
+    if write_coq_project() or not os.path.exists(os.path.join(COQ, 'Makefile')):
         coq_makefile()
     rc, out = sh(['make', '-k', '-j16'], cwd=COQ, timeout=timeout)
     return rc == 0, out
@@ -354,11 +373,16 @@ def run_harness(family, cases, timeout=3000, case_timeout='20s', jobs=1):
 # ----------------------------------------------------------- known findings
 
 def load_findings(pid):
-    try:
-        d = json.load(open(os.path.join(ROOT, 'known_findings.json')))
-    except OSError:
-        return []
-    return [e for e in d.get('entries', []) if e.get('property') == pid and e.get('kind') == 'finding']
+    """Entries of kind "finding" for the property, from known_findings.json and
+    known_findings/<pid>.json (both committed, never written at run time)."""
+    ents = []
+    for path in (os.path.join(ROOT, 'known_findings.json'), os.path.join(ROOT, 'known_findings', pid + '.json')):
+        try:
+            d = json.load(open(path))
+        except OSError:
+            continue
+        ents.extend(d.get('entries', []))
+    return [e for e in ents if e.get('property') == pid and e.get('kind') == 'finding']
 
 
 def match_finding(findings, sig):
